@@ -842,9 +842,11 @@ class Executor:
                 if len(src) < n or do.as_long() + n > len(st.mem.objs[d.obj]): raise Outcome('ub', 'oob memcpy')
                 st.mem.objs[d.obj][do.as_long():do.as_long()+n] = src; return
             if name.startswith('llvm.memset'):
-                d, v, n = args[0][1], args[1][1], full_simp(args[2][1])
+                d, v, n = args[0][1], args[1][1], self.const_off(st, args[2][1])
                 do = self.const_off(st, d.off)
-                if not (z3.is_bv_value(n) and z3.is_bv_value(do)): raise Outcome('unsupported', 'memset symbolic')
+                if isinstance(d.obj, tuple) or d.obj == 0: raise Outcome('ub', 'memset to global/null')
+                if not z3.is_bv_value(do): raise Concretize(do, list(range(0, len(st.mem.objs[d.obj]) + 1)))
+                if not z3.is_bv_value(n): raise Concretize(n, list(range(0, len(st.mem.objs[d.obj]) - do.as_long() + 1)))
                 n = n.as_long()
                 if do.as_long() + n > len(st.mem.objs[d.obj]): raise Outcome('ub', 'oob memset')
                 st.mem.objs[d.obj][do.as_long():do.as_long()+n] = [v] * n; return
